@@ -11,6 +11,8 @@ import dataclasses
 import random
 from typing import Dict, List, NamedTuple, Optional, Tuple, TypedDict, Union
 
+import typing
+
 import attrs
 
 from common import Verdict
@@ -75,6 +77,17 @@ class TAdd(TExpr):
     right: TExpr = attrs.Factory(TLit)
     opt: Optional[TExpr] = None
 
+
+# This module's annotations are strings (PEP 563).  Resolving them is something Converter's GENERATED hooks do on first use -- in
+# place, for the whole process -- and BaseConverter does not do at all (docs/indepth.md lists PEP 563 support among what the generated
+# hooks add): whether a BaseConverter case worked would depend on whether some Converter had touched the class before.  Resolve here.
+for _cl in (TA, TB, TE, THolder, TExpr, TLit, TAdd):
+    attrs.resolve_types(_cl)
+for _cl in (TD_, TDHolder):
+    _hints = typing.get_type_hints(_cl)
+    for _f in dataclasses.fields(_cl):
+        _f.type = _hints[_f.name]
+    _cl.__annotations__ = dict(_hints)
 
 U_AB = Union[TA, TB]
 U_ABN = Union[TA, TB, None]
